@@ -223,12 +223,36 @@ theorem rejects_slice_of_null_float {cfg : Cfg} (tag : String) (hn : cfg.nullCod
     rw [build]; simp [regLoad, hreg, hn, nullCodec]
   exact build_slice_nonfloat tag rfl (by simp) hb (.inl rfl)
 
-/-- slices of slices of length-delimited elements (outside proto mode). -/
+/-- slices of slices of length-delimited elements: rejected under EVERY option
+combination. (Until the repair `fix: … slices of slices … under
+ProtoCompatibleArrays` this theorem needed the hypothesis `cfg.protoArrays =
+false`: with the option set the inner slice was built in the protobuf repeated
+form, whose wire type is WTLength, so the outer slice accepted it and the
+elements of neighbouring inner slices ran together: `[[a b] [c]]` read back as
+`[[a] [b] [c]]`. The excluded point was a genuine defect.) -/
 theorem rejects_slice_of_slice {cfg : Cfg} {t : TyDef} {c : Ty} (tag : String)
-    (hne : t ≠ .basic (.uint 8)) (hp : cfg.protoArrays = false)
+    (hne : t ≠ .basic (.uint 8))
     (hb : build cfg t "" = .ok c) (hw : c.wt = .len) :
     build cfg (.slice (.slice t)) tag = .err :=
-  build_slice_slice_len tag hne hp hb hw
+  build_slice_slice_len tag hne hb hw
+
+/-- the same behind pointers: any slice whose element codec is, or points to, the
+protobuf repeated form (`[]*[]string` under ProtoCompatibleArrays). -/
+theorem rejects_slice_of_proto_slice {cfg : Cfg} {t : TyDef} {c : Ty} (tag : String)
+    (hne : t ≠ .basic (.uint 8)) (hb : build cfg t "" = .ok c) (hp : c.isProtoSlice = true) :
+    build cfg (.slice t) tag = .err :=
+  build_slice_protoslice tag hne hb hp
+
+/-- `[][]string` and `[]*[]string` under ProtoCompatibleArrays, concretely. -/
+example : build {protoArrays := true} (.slice (.slice (.basic .str))) "" = .err := rfl
+example : build {protoArrays := true} (.slice (.ptr (.slice (.basic .str)))) "" = .err := rfl
+example : build {protoArrays := true}
+    (.struct "S" [("A", true, "1", "", .slice (.slice (.struct "E" [("X", true, "1", "", .basic .bool)])))]) ""
+    = .err := rfl
+/-- … while `[][]byte` and `[][]int` stay accepted there (their inner codecs are not the repeated form). -/
+example : build {protoArrays := true} (.slice (.slice (.basic (.uint 8)))) "" = .ok (.pslice .bytes) := rfl
+example : build {protoArrays := true} (.slice (.slice (.basic (.int 64)))) ""
+    = .ok (.pslice (.vslice (.int 64))) := rfl
 
 /-- any slice whose element codec has plenc's WTSlice wire type. -/
 theorem rejects_slice_of_wtslice {cfg : Cfg} {t : TyDef} {c : Ty} (tag : String)
